@@ -101,6 +101,7 @@ func (c *LRUCache) Remove(key string) {
 // when nobody refers to it.
 func (c *LRUCache) Clear() {
 	c.mu.Lock()
+	verifhook.Event("lru.Clear", c, "")
 	defer c.mu.Unlock()
 	c.cache.Clear()
 }
